@@ -482,3 +482,14 @@ func ReadLines(files []string, fn func(line []byte) error) error {
 	}
 	return nil
 }
+
+// Guard runs f and turns a panic (of the library under test, reached through f) into a description,
+// so that it is reported as a violation with its witness instead of crashing the harness.
+func Guard(f func() string) (detail string) {
+	defer func() {
+		if r := recover(); r != nil {
+			detail = fmt.Sprintf("panic: %v", r)
+		}
+	}()
+	return f()
+}
